@@ -1,6 +1,1481 @@
-//! C02 — not implemented yet.
-use crate::report::{Cfg, Report};
-
-pub fn run(_cfg: &Cfg, rep: &mut Report) {
-    rep.inconclusive("monitor for C02 not implemented".to_string());
+//! C02 — densities and mass functions are proper and match the stated mean and variance
+//! (DESIGN §3 C02).
+//!
+//! Events: every `pdf` / `pmf` / `ln_pdf` / `Normal::cdf` / `mean()` / `var()` return value or panic.
+//! Oracle: (a) independent closed forms evaluated in log space with glibc `lgamma`; (b) total mass,
+//! mean and variance by Gauss–Kronrod integration / summation of the *library's own* pdf/pmf,
+//! compared with `mean()`/`var()` when those are finite (the same integrator is first run on the
+//! reference density: if it cannot reproduce the textbook moments the setting is inconclusive, so
+//! an integrator problem can never become a verdict); (c) `Normal::cdf` vs quadrature of
+//! `Normal::pdf` and vs `erfc`; (d) exact 0 and no panic strictly outside the support, "no panic,
+//! no NaN, >= 0" on the boundary; (e) MVN pdf vs the harness's own Cholesky in double-double.
+#[cfg(miri)]
+pub fn run(_cfg: &crate::report::Cfg, rep: &mut crate::report::Report) {
+    rep.inconclusive("C02 needs the glibc oracle (FFI) and has no Miri layer".to_string());
 }
+#[cfg(not(miri))]
+pub use native::run;
+
+#[cfg(not(miri))]
+mod native {
+    use crate::gen::Rng;
+    use crate::oracle::dd::Dd;
+    use crate::oracle::linref;
+    use crate::oracle::special as sp;
+    use crate::report::{guard, jf, jnum, par_cases, Cfg, Hasher, Report};
+    use compute::distributions::{
+        Bernoulli, Beta, Binomial, ChiSquared, Continuous, Discrete, DiscreteUniform, Exponential, Gamma, Gumbel, Mean, Normal, Pareto, Poisson, Uniform, Variance, MVN, T,
+    };
+    use compute::linalg::Matrix;
+    use serde_json::json;
+
+    // -----------------------------------------------------------------------------------------
+    // Gauss–Kronrod 21 (QUADPACK qk21 nodes), three moments at once, adaptive bisection
+
+    const XGK: [f64; 11] = [
+        0.995_657_163_025_808_080_735_527_280_689_003,
+        0.973_906_528_517_171_720_077_964_012_084_452,
+        0.930_157_491_355_708_226_001_207_180_059_508,
+        0.865_063_366_688_984_510_732_096_688_423_493,
+        0.780_817_726_586_416_897_063_717_578_345_042,
+        0.679_409_568_299_024_406_234_327_365_114_874,
+        0.562_757_134_668_604_683_339_000_099_272_694,
+        0.433_395_394_129_247_190_799_265_943_165_784,
+        0.294_392_862_701_460_198_131_126_603_103_866,
+        0.148_874_338_981_631_210_884_826_001_129_720,
+        0.0,
+    ];
+    const WGK: [f64; 11] = [
+        0.011_694_638_867_371_874_278_064_396_062_192,
+        0.032_558_162_307_964_727_478_818_972_459_390,
+        0.054_755_896_574_351_996_031_381_300_244_580,
+        0.075_039_674_810_919_952_767_043_140_916_190,
+        0.093_125_454_583_697_605_535_065_465_083_366,
+        0.109_387_158_802_297_641_899_210_590_325_805,
+        0.123_491_976_262_065_851_077_958_109_585_166,
+        0.134_709_217_311_473_325_928_054_001_771_707,
+        0.142_775_938_577_060_080_797_094_273_138_717,
+        0.147_739_104_901_338_491_374_841_515_972_068,
+        0.149_445_554_002_916_905_664_936_468_389_821,
+    ];
+    /// 10-point Gauss weights for the nodes XGK[1], XGK[3], …, XGK[9]
+    const WG: [f64; 5] = [
+        0.066_671_344_308_688_137_593_568_809_893_332,
+        0.149_451_349_150_580_593_145_776_339_657_697,
+        0.219_086_362_515_982_043_995_534_934_228_163,
+        0.269_266_719_309_996_355_091_226_921_569_469,
+        0.295_524_224_714_752_870_173_815_619_188_769,
+    ];
+
+    /// ∫ f, ∫ u f, ∫ u² f over [a,b] with u = (x−c)/s: (Kronrod value, |Kronrod − Gauss|)
+    fn gk_panel(f: &mut dyn FnMut(f64) -> f64, a: f64, b: f64, c: f64, s: f64) -> ([f64; 3], [f64; 3]) {
+        let mid = 0.5 * (a + b);
+        let half = 0.5 * (b - a);
+        let mut k = [0.0f64; 3];
+        let mut g = [0.0f64; 3];
+        let mut add = |x: f64, wk: f64, wg: f64| {
+            let fx = f(x);
+            let u = (x - c) / s;
+            let m = [fx, fx * u, fx * u * u];
+            for i in 0..3 {
+                k[i] += wk * m[i];
+                g[i] += wg * m[i];
+            }
+        };
+        for j in 0..10 {
+            let dx = half * XGK[j];
+            let wg = if j % 2 == 1 { WG[j / 2] } else { 0.0 };
+            add(mid - dx, WGK[j], wg);
+            add(mid + dx, WGK[j], wg);
+        }
+        add(mid, WGK[10], 0.0);
+        let mut e = [0.0; 3];
+        for i in 0..3 {
+            k[i] *= half;
+            g[i] *= half;
+            e[i] = (k[i] - g[i]).abs();
+        }
+        (k, e)
+    }
+
+    pub struct Integral {
+        /// ∫f, ∫u f, ∫u² f (u = (x−c)/s)
+        pub m: [f64; 3],
+        pub evals: u64,
+        pub converged: bool,
+    }
+
+    /// Adaptive GK21 over the panels between consecutive breakpoints; a panel is bisected while its
+    /// error estimate exceeds `tol` (absolute, in units where the three moments are O(1)).
+    fn integrate(f: &mut dyn FnMut(f64) -> f64, bps: &[f64], c: f64, s: f64, tol: f64, nmom: usize) -> Integral {
+        let mut m = [Dd::ZERO; 3];
+        let mut evals = 0u64;
+        let mut converged = true;
+        let mut stack: Vec<(f64, f64, u32)> = Vec::new();
+        for w in bps.windows(2) {
+            if !(w[1] > w[0]) {
+                continue;
+            }
+            stack.push((w[0], w[1], 0));
+            while let Some((a, b, depth)) = stack.pop() {
+                let (k, e) = gk_panel(f, a, b, c, s);
+                evals += 21;
+                let bad = e[..nmom].iter().any(|x| !(*x <= tol));
+                let mid = 0.5 * (a + b);
+                if bad && depth < 48 && evals < 4_000_000 && mid > a && mid < b && k[..nmom].iter().all(|x| x.is_finite()) {
+                    stack.push((mid, b, depth + 1));
+                    stack.push((a, mid, depth + 1));
+                } else {
+                    if bad {
+                        converged = false;
+                    }
+                    for i in 0..3 {
+                        m[i] = m[i] + Dd::new(k[i]);
+                    }
+                }
+            }
+        }
+        Integral { m: [m[0].f(), m[1].f(), m[2].f()], evals, converged }
+    }
+
+    /// Self-test of nodes and weights: Kronrod exact to degree 31, Gauss to 19.
+    fn gk_selftest() -> Result<(), String> {
+        for deg in [0u32, 2, 10, 18, 30] {
+            let mut f = |x: f64| x.powi(deg as i32);
+            let (k, e) = gk_panel(&mut f, -1.0, 1.0, 0.0, 1.0);
+            let want = 2.0 / (deg as f64 + 1.0);
+            if (k[0] - want).abs() > 1e-14 {
+                return Err(format!("GK21 fails on x^{}: {:e} vs {:e}", deg, k[0], want));
+            }
+            if deg <= 18 && e[0] > 1e-14 {
+                return Err(format!("G10 fails on x^{}: diff {:e}", deg, e[0]));
+            }
+        }
+        let mut f = |x: f64| (-x * x / 2.0).exp() / (2.0 * std::f64::consts::PI).sqrt();
+        let bps: Vec<f64> = (-40..=40).map(|i| i as f64).collect();
+        let r = integrate(&mut f, &bps, 0.0, 1.0, 1e-14, 3);
+        if (r.m[0] - 1.0).abs() > 1e-13 || r.m[1].abs() > 1e-13 || (r.m[2] - 1.0).abs() > 1e-13 || !r.converged {
+            return Err(format!("integrator fails on the standard normal: {:?}", r.m));
+        }
+        Ok(())
+    }
+
+    // -----------------------------------------------------------------------------------------
+    // small helpers
+
+    fn next_up(x: f64) -> f64 {
+        if x.is_nan() || x == f64::INFINITY {
+            return x;
+        }
+        if x == 0.0 {
+            return f64::from_bits(1);
+        }
+        let b = x.to_bits();
+        f64::from_bits(if x > 0.0 { b + 1 } else { b - 1 })
+    }
+    fn next_down(x: f64) -> f64 {
+        -next_up(-x)
+    }
+
+    /// p-quantile of a reference CDF by bisection, bracket grown geometrically from (c, s)
+    fn quantile(cdf: &dyn Fn(f64) -> f64, p: f64, lo: f64, hi: f64, c: f64, s: f64) -> f64 {
+        let mut a = if lo.is_finite() { lo } else { c - s };
+        let mut b = if hi.is_finite() { hi } else { c + s };
+        let mut k = 0;
+        while !lo.is_finite() && cdf(a) > p && k < 200 {
+            a = c - (c - a) * 2.0;
+            k += 1;
+        }
+        k = 0;
+        while !hi.is_finite() && cdf(b) < p && k < 200 {
+            b = c + (b - c) * 2.0;
+            k += 1;
+        }
+        for _ in 0..200 {
+            let m = 0.5 * (a + b);
+            if !(m > a && m < b) {
+                break;
+            }
+            if cdf(m) < p {
+                a = m;
+            } else {
+                b = m;
+            }
+        }
+        0.5 * (a + b)
+    }
+
+    const LADDER: [f64; 41] = [
+        1e-12, 1e-9, 1e-6, 1e-4, 1e-3, 0.005, 0.01, 0.025, 0.05, 0.1, 0.15, 0.2, 0.25, 0.3, 0.35, 0.4, 0.45, 0.5, 0.55, 0.6, 0.65, 0.7, 0.75, 0.8, 0.85, 0.9, 0.95, 0.975, 0.99, 0.995, 0.999,
+        0.9999, 0.999999, 0.999999999, 0.999999999999, 0.03, 0.97, 0.125, 0.875, 0.333, 0.667,
+    ];
+
+    pub const FORMULA_TOL: f64 = 1e-11;
+    pub const MOMENT_TOL: f64 = 1e-8;
+    pub const CDF_TOL: f64 = 2e-7;
+
+    fn close_rel(got: f64, want: f64, tol: f64) -> (bool, f64) {
+        let err = (got - want).abs();
+        let bound = tol * want.abs() + 1e-300;
+        (err <= bound, if err.is_nan() { f64::INFINITY } else { err / bound })
+    }
+
+    // -----------------------------------------------------------------------------------------
+    // continuous laws
+
+    #[derive(Clone, Copy, Debug, PartialEq)]
+    enum CLaw {
+        Normal,
+        Gamma,
+        Beta,
+        Chi2,
+        T,
+        Pareto,
+        Gumbel,
+        Exponential,
+        Uniform,
+    }
+
+    #[derive(Clone, Copy, Debug)]
+    struct CSpec {
+        law: CLaw,
+        a: f64,
+        b: f64,
+    }
+
+    /// First argument at which the library's Lanczos gamma overflows (see C09): a fixed number that
+    /// only names the regime, never read from the library.
+    const GAMMA_RANGE: f64 = 142.57;
+    const EULER: f64 = 0.577_215_664_901_532_9;
+    const LN_2PI: f64 = 1.837_877_066_409_345_5;
+
+    fn shape_class(x: f64) -> &'static str {
+        if x < 1.0 {
+            "shape<1"
+        } else if x == 1.0 {
+            "shape=1"
+        } else {
+            "shape>1"
+        }
+    }
+
+    impl CSpec {
+        fn regime(&self) -> String {
+            let (a, b) = (self.a, self.b);
+            match self.law {
+                CLaw::Normal => "normal".into(),
+                CLaw::Gamma => {
+                    if a >= GAMMA_RANGE {
+                        "gamma:shape>=142.57".into()
+                    } else {
+                        format!("gamma:{}", shape_class(a))
+                    }
+                }
+                CLaw::Beta => {
+                    if a + b >= GAMMA_RANGE {
+                        "beta:a+b>=142.57".into()
+                    } else if a < 1.0 || b < 1.0 {
+                        "beta:shape<1".into()
+                    } else if a == 1.0 || b == 1.0 {
+                        "beta:shape=1".into()
+                    } else {
+                        "beta:shape>1".into()
+                    }
+                }
+                CLaw::Chi2 => {
+                    if a == 1.0 {
+                        "chi2:dof=1".into()
+                    } else if a == 2.0 {
+                        "chi2:dof=2".into()
+                    } else {
+                        "chi2:dof>2".into()
+                    }
+                }
+                CLaw::T => "t".into(),
+                CLaw::Pareto => "pareto".into(),
+                CLaw::Gumbel => "gumbel".into(),
+                CLaw::Exponential => "exponential".into(),
+                CLaw::Uniform => "uniform".into(),
+            }
+        }
+        fn name(&self) -> &'static str {
+            match self.law {
+                CLaw::Normal => "normal",
+                CLaw::Gamma => "gamma",
+                CLaw::Beta => "beta",
+                CLaw::Chi2 => "chi2",
+                CLaw::T => "t",
+                CLaw::Pareto => "pareto",
+                CLaw::Gumbel => "gumbel",
+                CLaw::Exponential => "exponential",
+                CLaw::Uniform => "uniform",
+            }
+        }
+    }
+
+    struct CModel {
+        pdf: Box<dyn Fn(f64) -> f64>,
+        ln_pdf: Box<dyn Fn(f64) -> f64>,
+        mean: f64,
+        var: f64,
+        /// reference log-density (valid inside the support)
+        ref_ln: Box<dyn Fn(f64) -> f64>,
+        /// logs of the individual textbook factors at x (representability filter)
+        ln_factors: Box<dyn Fn(f64) -> Vec<f64>>,
+        cdf: Box<dyn Fn(f64) -> f64>,
+        lo: f64,
+        hi: f64,
+        c: f64,
+        s: f64,
+        heavy: bool,
+        /// textbook moments, only where finite *and* reachable by the truncated integration
+        tmean: Option<f64>,
+        tvar: Option<f64>,
+        /// false where the density is singular at a non-zero support end: f64 arguments cannot
+        /// resolve the singularity (Beta with b < 1 puts 1e-5 of its mass within one ulp of 1)
+        moments_reachable: bool,
+    }
+
+    fn cmodel(sp_: &CSpec) -> Result<CModel, String> {
+        let (a, b) = (sp_.a, sp_.b);
+        let inf = f64::INFINITY;
+        macro_rules! lib {
+            ($d:expr) => {{
+                let d = guard(|| $d)?;
+                let m = guard(|| d.mean())?;
+                let v = guard(|| d.var())?;
+                (Box::new(move |x: f64| d.pdf(x)) as Box<dyn Fn(f64) -> f64>, Box::new(move |x: f64| d.ln_pdf(x)) as Box<dyn Fn(f64) -> f64>, m, v)
+            }};
+        }
+        Ok(match sp_.law {
+            CLaw::Normal => {
+                let (pdf, ln_pdf, mean, var) = lib!(Normal::new(a, b));
+                CModel {
+                    pdf,
+                    ln_pdf,
+                    mean,
+                    var,
+                    ref_ln: Box::new(move |x| {
+                        let z = (x - a) / b;
+                        -0.5 * z * z - b.ln() - 0.5 * LN_2PI
+                    }),
+                    ln_factors: Box::new(move |x| {
+                        let z = (x - a) / b;
+                        vec![-b.ln() - 0.5 * LN_2PI, -0.5 * z * z]
+                    }),
+                    cdf: Box::new(move |x| sp::norm_cdf(x, a, b)),
+                    lo: -inf,
+                    hi: inf,
+                    c: a,
+                    s: b,
+                    heavy: false,
+                    tmean: Some(a),
+                    tvar: Some(b * b),
+                    moments_reachable: true,
+                }
+            }
+            CLaw::Gamma => {
+                let (pdf, ln_pdf, mean, var) = lib!(Gamma::new(a, b));
+                let lg = sp::lgamma(a);
+                CModel {
+                    pdf,
+                    ln_pdf,
+                    mean,
+                    var,
+                    ref_ln: Box::new(move |x| a * b.ln() - lg + (a - 1.0) * x.ln() - b * x),
+                    ln_factors: Box::new(move |x| vec![a * b.ln(), -lg, (a - 1.0) * x.ln(), -b * x]),
+                    cdf: Box::new(move |x| sp::gamma_cdf(x, a, b)),
+                    lo: 0.0,
+                    hi: inf,
+                    c: a / b,
+                    s: a.sqrt().max(a) / b,
+                    heavy: false,
+                    tmean: Some(a / b),
+                    tvar: Some(a / (b * b)),
+                    moments_reachable: true,
+                }
+            }
+            CLaw::Beta => {
+                let (pdf, ln_pdf, mean, var) = lib!(Beta::new(a, b));
+                let lb = sp::lbeta(a, b);
+                let (la, lbb, lab) = (sp::lgamma(a), sp::lgamma(b), sp::lgamma(a + b));
+                CModel {
+                    pdf,
+                    ln_pdf,
+                    mean,
+                    var,
+                    ref_ln: Box::new(move |x| (a - 1.0) * x.ln() + (b - 1.0) * sp::log1p(-x) - lb),
+                    ln_factors: Box::new(move |x| vec![(a - 1.0) * x.ln(), (b - 1.0) * sp::log1p(-x), -la, -lbb, lab]),
+                    cdf: Box::new(move |x| sp::beta_cdf(x, a, b)),
+                    lo: 0.0,
+                    hi: 1.0,
+                    c: a / (a + b),
+                    s: 1.0,
+                    heavy: false,
+                    tmean: Some(a / (a + b)),
+                    tvar: Some(a * b / ((a + b) * (a + b) * (a + b + 1.0))),
+                    moments_reachable: b >= 1.0,
+                }
+            }
+            CLaw::Chi2 => {
+                let k = a;
+                let (pdf, ln_pdf, mean, var) = lib!(ChiSquared::new(k as usize));
+                let h = k / 2.0;
+                let lg = sp::lgamma(h);
+                let ln2 = std::f64::consts::LN_2;
+                CModel {
+                    pdf,
+                    ln_pdf,
+                    mean,
+                    var,
+                    ref_ln: Box::new(move |x| -h * ln2 - lg + (h - 1.0) * x.ln() - x / 2.0),
+                    ln_factors: Box::new(move |x| vec![-h * ln2, -lg, (h - 1.0) * x.ln(), -x / 2.0]),
+                    cdf: Box::new(move |x| sp::chi2_cdf(x, k)),
+                    lo: 0.0,
+                    hi: inf,
+                    c: k,
+                    s: (2.0 * k).sqrt(),
+                    heavy: false,
+                    tmean: Some(k),
+                    tvar: Some(2.0 * k),
+                    moments_reachable: true,
+                }
+            }
+            CLaw::T => {
+                let nu = a;
+                let (pdf, ln_pdf, mean, var) = lib!(T::new(nu));
+                let (l1, l2) = (sp::lgamma((nu + 1.0) / 2.0), sp::lgamma(nu / 2.0));
+                CModel {
+                    pdf,
+                    ln_pdf,
+                    mean,
+                    var,
+                    ref_ln: Box::new(move |x| l1 - l2 - 0.5 * (nu * std::f64::consts::PI).ln() - (nu + 1.0) / 2.0 * sp::log1p(x * x / nu)),
+                    ln_factors: Box::new(move |x| vec![l1, -l2, -(nu + 1.0) / 2.0 * sp::log1p(x * x / nu)]),
+                    cdf: Box::new(move |x| sp::t_cdf(x, nu)),
+                    lo: -inf,
+                    hi: inf,
+                    c: 0.0,
+                    s: 1.0,
+                    heavy: true,
+                    // tail of x^w f beyond 2^110 is X^(w−ν): negligible only with exponent margin >= 1/2
+                    tmean: if nu >= 1.5 { Some(0.0) } else { None },
+                    tvar: if nu >= 2.5 { Some(nu / (nu - 2.0)) } else { None },
+                    moments_reachable: true,
+                }
+            }
+            CLaw::Pareto => {
+                let (al, xm) = (a, b);
+                let (pdf, ln_pdf, mean, var) = lib!(Pareto::new(al, xm));
+                CModel {
+                    pdf,
+                    ln_pdf,
+                    mean,
+                    var,
+                    ref_ln: Box::new(move |x| al.ln() + al * xm.ln() - (al + 1.0) * x.ln()),
+                    ln_factors: Box::new(move |x| vec![al * xm.ln(), -(al + 1.0) * x.ln()]),
+                    cdf: Box::new(move |x| sp::pareto_cdf(x, al, xm)),
+                    lo: xm,
+                    hi: inf,
+                    c: xm,
+                    s: xm,
+                    heavy: true,
+                    tmean: if al >= 1.5 { Some(al * xm / (al - 1.0)) } else { None },
+                    tvar: if al >= 2.5 { Some(xm * xm * al / ((al - 1.0) * (al - 1.0) * (al - 2.0))) } else { None },
+                    moments_reachable: true,
+                }
+            }
+            CLaw::Gumbel => {
+                let (pdf, ln_pdf, mean, var) = lib!(Gumbel::new(a, b));
+                CModel {
+                    pdf,
+                    ln_pdf,
+                    mean,
+                    var,
+                    ref_ln: Box::new(move |x| {
+                        let z = (x - a) / b;
+                        -b.ln() - z - (-z).exp()
+                    }),
+                    ln_factors: Box::new(move |_x| vec![-b.ln()]),
+                    cdf: Box::new(move |x| sp::gumbel_cdf(x, a, b)),
+                    lo: -inf,
+                    hi: inf,
+                    c: a,
+                    s: b,
+                    heavy: false,
+                    tmean: Some(a + b * EULER),
+                    tvar: Some(std::f64::consts::PI * std::f64::consts::PI / 6.0 * b * b),
+                    moments_reachable: true,
+                }
+            }
+            CLaw::Exponential => {
+                let (pdf, ln_pdf, mean, var) = lib!(Exponential::new(a));
+                CModel {
+                    pdf,
+                    ln_pdf,
+                    mean,
+                    var,
+                    ref_ln: Box::new(move |x| a.ln() - a * x),
+                    ln_factors: Box::new(move |x| vec![a.ln(), -a * x]),
+                    cdf: Box::new(move |x| sp::exp_cdf(x, a)),
+                    lo: 0.0,
+                    hi: inf,
+                    c: 1.0 / a,
+                    s: 1.0 / a,
+                    heavy: false,
+                    tmean: Some(1.0 / a),
+                    tvar: Some(1.0 / (a * a)),
+                    moments_reachable: true,
+                }
+            }
+            CLaw::Uniform => {
+                let (pdf, ln_pdf, mean, var) = lib!(Uniform::new(a, b));
+                CModel {
+                    pdf,
+                    ln_pdf,
+                    mean,
+                    var,
+                    ref_ln: Box::new(move |_x| -(b - a).ln()),
+                    ln_factors: Box::new(move |_x| vec![-(b - a).ln()]),
+                    cdf: Box::new(move |x| sp::unif_cdf(x, a, b)),
+                    lo: a,
+                    hi: b,
+                    c: 0.5 * (a + b),
+                    s: b - a,
+                    heavy: false,
+                    tmean: Some(0.5 * (a + b)),
+                    tvar: Some((b - a) * (b - a) / 12.0),
+                    moments_reachable: true,
+                }
+            }
+        })
+    }
+
+    impl CModel {
+        /// all textbook factors individually representable at x (or the density is below 1e-300 and
+        /// no factor overflows, in which case 0 is the right answer to absolute 1e-300)
+        fn representable(&self, x: f64) -> bool {
+            let f = (self.ln_factors)(x);
+            if f.iter().any(|v| v.is_nan()) {
+                return false;
+            }
+            // every partial product of the textbook factors must be representable, whatever the
+            // order of evaluation: sum of the positive logs and sum of the negative logs
+            let pos: f64 = f.iter().filter(|v| **v > 0.0).sum();
+            let neg: f64 = f.iter().filter(|v| **v < 0.0).sum();
+            pos <= 700.0 && (neg >= -700.0 || (self.ref_ln)(x) <= -700.0)
+        }
+        fn inside(&self, x: f64) -> bool {
+            x > self.lo && x < self.hi
+        }
+        /// breakpoints for the moment integrals (see module docs): geometric towards finite support
+        /// ends, doubling panels outwards from the centre; light tails are cut where the reference
+        /// density is e^-80 below its largest value on the grid, heavy tails at 2^110 scale units.
+        fn breakpoints(&self) -> Vec<f64> {
+            let mut pts: Vec<f64> = vec![self.c];
+            let kmax: i32 = if self.heavy { 110 } else { 12 };
+            for k in -1000..=kmax {
+                let d = self.s * 2f64.powi(k);
+                if !(d >= 1e-305) {
+                    continue;
+                }
+                // panels narrower than 2^10 ulp of the endpoint would have coinciding nodes
+                if self.lo.is_finite() && d >= 1024.0 * f64::EPSILON * self.lo.abs() {
+                    pts.push(self.lo + d);
+                }
+                if self.hi.is_finite() && d >= 1024.0 * f64::EPSILON * self.hi.abs() {
+                    pts.push(self.hi - d);
+                }
+                if k >= -6 {
+                    pts.push(self.c + d);
+                    pts.push(self.c - d);
+                    pts.push(self.c + 1.5 * d);
+                    pts.push(self.c - 1.5 * d);
+                }
+            }
+            // a support end at 0 may carry an integrable singularity (shape < 1): the ladder stops
+            // at 1e-305 scale units, below which even x^-0.8 holds less than 1e-60 of the mass
+            if self.lo.is_finite() && self.lo != 0.0 {
+                pts.push(self.lo);
+            }
+            if self.hi.is_finite() {
+                pts.push(self.hi);
+            }
+            pts.retain(|x| x.is_finite() && *x >= self.lo && *x <= self.hi);
+            pts.sort_by(|p, q| p.partial_cmp(q).unwrap());
+            pts.dedup();
+            if !self.heavy {
+                // proxy for the mass near a breakpoint: density × distance between its neighbours
+                let n = pts.len();
+                let w: Vec<f64> = (0..n)
+                    .map(|i| {
+                        let x = pts[i];
+                        if !self.inside(x) {
+                            return f64::NEG_INFINITY;
+                        }
+                        let span = pts[(i + 1).min(n - 1)] - pts[i.saturating_sub(1)];
+                        (self.ref_ln)(x) + span.ln()
+                    })
+                    .collect();
+                let peak = w.iter().cloned().filter(|v| v.is_finite()).fold(f64::NEG_INFINITY, f64::max);
+                let keep: Vec<bool> = w.iter().map(|&l| l >= peak - 80.0).collect();
+                let first = keep.iter().position(|&k| k).unwrap_or(0);
+                let last = keep.iter().rposition(|&k| k).unwrap_or(n - 1);
+                // one extra panel on each side so the cut sits below the threshold
+                let lo_i = first.saturating_sub(1);
+                let hi_i = (last + 1).min(n - 1);
+                pts = pts[lo_i..=hi_i].to_vec();
+            }
+            pts
+        }
+    }
+
+    fn cont_points(m: &CModel) -> (Vec<f64>, Vec<f64>, Vec<f64>) {
+        let mut inside: Vec<f64> = LADDER.iter().map(|&p| quantile(&*m.cdf, p, m.lo, m.hi, m.c, m.s)).collect();
+        for k in [50.0, 1e3, 1e6] {
+            inside.push(m.c + k * m.s);
+            inside.push(m.c - k * m.s);
+        }
+        inside.push(m.c);
+        let mut boundary = Vec::new();
+        let mut outside = Vec::new();
+        if m.lo.is_finite() {
+            boundary.push(m.lo);
+            inside.push(next_up(m.lo));
+            inside.push(m.lo + 1e-9 * m.s);
+            for x in [next_down(m.lo), m.lo - 1e-9 * m.s.min(m.lo.abs().max(1e-300)), m.lo - m.s, m.lo - 1e3 * m.s, -1.0 - m.lo.abs() * 2.0, -1e300] {
+                outside.push(x);
+            }
+            if m.lo > 0.0 {
+                outside.push(0.0);
+                outside.push(0.5 * m.lo);
+            }
+        }
+        if m.hi.is_finite() {
+            boundary.push(m.hi);
+            inside.push(next_down(m.hi));
+            inside.push(m.hi - 1e-9 * m.s);
+            for x in [next_up(m.hi), m.hi + 1e-9 * m.s, m.hi + m.s, m.hi + 1e3 * m.s, 1e300] {
+                outside.push(x);
+            }
+        }
+        inside.retain(|x| x.is_finite() && m.inside(*x));
+        inside.sort_by(|p, q| p.partial_cmp(q).unwrap());
+        inside.dedup();
+        outside.retain(|x| x.is_finite() && (*x < m.lo || *x > m.hi));
+        (inside, boundary, outside)
+    }
+
+    fn run_cont(spec: &CSpec, rep: &mut Report) {
+        let regime = spec.regime();
+        let law = spec.name();
+        let params = json!({"law": law, "params": [spec.a, spec.b]});
+        let m = match cmodel(spec) {
+            Ok(m) => m,
+            Err(msg) => {
+                rep.case(&regime);
+                rep.check("C02.construct.no_panic", &regime, false, || json!({"setting": params, "panic": msg}));
+                return;
+            }
+        };
+        rep.distinct(Hasher::new().s(law).f(spec.a).f(spec.b).finish(), true);
+        rep.sample(|| json!({"setting": params, "regime": regime, "mean()": jnum(m.mean), "var()": jnum(m.var)}));
+        let (inside, boundary, outside) = cont_points(&m);
+
+        // (a) formula, non-negativity, ln_pdf at points of the support
+        let mut formula_failures = 0u32;
+        for &x in &inside {
+            if !m.representable(x) {
+                rep.note_add("skipped.points_with_unrepresentable_textbook_factor", 1.0);
+                continue;
+            }
+            rep.case(&regime);
+            let got = match guard(|| (m.pdf)(x)) {
+                Ok(v) => v,
+                Err(msg) => {
+                    rep.check("C02.pdf.no_panic", &regime, false, || json!({"setting": params, "x": x, "panic": msg}));
+                    continue;
+                }
+            };
+            let want = (m.ref_ln)(x).exp();
+            // NaN is left to the formula check: this assertion is about the sign only
+            rep.check("C02.pdf.nonneg", &regime, !(got < 0.0), || json!({"setting": params, "x": x, "observed": jnum(got), "expected": want}));
+            // conditioning: a log-space evaluation carries eps·(sum of |log factors|) whatever the code
+            let tol = FORMULA_TOL + 16.0 * f64::EPSILON * (m.ln_factors)(x).iter().map(|v| v.abs()).sum::<f64>().min(3000.0);
+            let (ok, ratio) = close_rel(got, want, tol);
+            if ok {
+                rep.note_max(&format!("worst_ratio.pdf.formula:{}", regime), ratio);
+            }
+            if !ok {
+                formula_failures += 1;
+            }
+            rep.check("C02.pdf.formula", &regime, ok, || json!({"setting": params, "x": x, "observed": jnum(got), "expected": want, "rel_tol": tol}));
+            if got.is_finite() && got >= 1e-300 {
+                match guard(|| (m.ln_pdf)(x)) {
+                    Ok(l) => {
+                        let lw = got.ln();
+                        let err = (l - lw).abs();
+                        let bound = FORMULA_TOL * lw.abs().max(1.0);
+                        if err <= bound {
+                            rep.note_max("worst_ratio.ln_pdf", err / bound);
+                        }
+                        rep.check("C02.ln_pdf", &regime, err <= bound, || json!({"setting": params, "x": x, "ln_pdf": jnum(l), "ln(pdf)": lw, "pdf": got}));
+                    }
+                    Err(msg) => {
+                        rep.check("C02.ln_pdf", &regime, false, || json!({"setting": params, "x": x, "panic": msg}));
+                    }
+                }
+            }
+        }
+        // (d) boundary: sane; strictly outside: exactly 0, no panic
+        for &x in &boundary {
+            // the constants of the formula must be representable for the boundary value to mean anything
+            let nb = if x == m.lo { next_up(x) } else { next_down(x) };
+            if !m.representable(nb) {
+                rep.note_add("skipped.points_with_unrepresentable_textbook_factor", 1.0);
+                continue;
+            }
+            rep.case(&regime);
+            let r = guard(|| (m.pdf)(x));
+            let ok = matches!(r, Ok(v) if v >= 0.0);
+            rep.check("C02.boundary.sane", &regime, ok, || json!({"setting": params, "x": x, "observed": match &r { Ok(v) => jnum(*v), Err(e) => json!({"panic": e}) }, "expected": "no panic, not NaN, >= 0"}));
+        }
+        for &x in &outside {
+            rep.case(&regime);
+            let r = guard(|| (m.pdf)(x));
+            let ok = matches!(r, Ok(v) if v == 0.0);
+            rep.check("C02.outside.zero", &regime, ok, || json!({"setting": params, "x": x, "support": [jnum(m.lo), jnum(m.hi)], "observed": match &r { Ok(v) => jnum(*v), Err(e) => json!({"panic": e}) }, "expected": 0.0}));
+        }
+
+        // (b) total mass and moments of the library's own pdf
+        if formula_failures > 0 {
+            // the pdf is already reported wrong; its moments would only repeat that finding under
+            // further signatures (and hide nothing: once the pdf is right they are checked again)
+            rep.note_add("skipped.moment_integrals_pdf_formula_failed", 1.0);
+            return;
+        }
+        if !m.moments_reachable {
+            rep.note_add("skipped.moment_integrals_singular_at_nonzero_endpoint", 1.0);
+            return;
+        }
+        let bps = m.breakpoints();
+        let nmom = 1 + m.tmean.is_some() as usize + (m.tmean.is_some() && m.tvar.is_some()) as usize;
+        if bps.iter().any(|&x| m.inside(x) && !m.representable(x)) {
+            rep.note_add("skipped.moment_integrals_unrepresentable_factor", 1.0);
+            return;
+        }
+        let tol = 1e-13;
+        let mut fref = |x: f64| if m.inside(x) { (m.ref_ln)(x).exp() } else { 0.0 };
+        let r0 = integrate(&mut fref, &bps, m.c, m.s, tol, nmom);
+        let sd = m.tvar.map(|v| v.sqrt()).unwrap_or(m.s);
+        let raw_mean = |i: &Integral| m.c * i.m[0] + m.s * i.m[1];
+        let central = |i: &Integral, mu: f64| {
+            let d = (mu - m.c) / m.s;
+            m.s * m.s * (i.m[2] - 2.0 * d * i.m[1] + d * d * i.m[0])
+        };
+        // integrator self-check on the reference density: must reproduce the textbook moments
+        let mut self_ok = r0.converged && (r0.m[0] - 1.0).abs() <= 1e-9;
+        if let Some(tm) = m.tmean {
+            self_ok &= (raw_mean(&r0) - tm).abs() <= 1e-9 * tm.abs().max(sd);
+        }
+        if let Some(tv) = m.tvar {
+            self_ok &= (central(&r0, raw_mean(&r0)) - tv).abs() <= 1e-9 * tv;
+        }
+        if !self_ok {
+            rep.inconclusive(format!("integrator self-check failed for {} {:?}: mass {:e}, mean {:e} (textbook {:?}), var {:e} (textbook {:?}), converged {}", law, [spec.a, spec.b], r0.m[0], raw_mean(&r0), m.tmean, central(&r0, raw_mean(&r0)), m.tvar, r0.converged));
+            return;
+        }
+        let r1 = match guard(|| {
+            let mut f = |x: f64| (m.pdf)(x);
+            integrate(&mut f, &bps, m.c, m.s, tol, nmom)
+        }) {
+            Ok(r) => r,
+            Err(msg) => {
+                rep.check("C02.pdf.no_panic", &regime, false, || json!({"setting": params, "while": "integrating the pdf", "panic": msg}));
+                return;
+            }
+        };
+        rep.case(&regime);
+        rep.note_add("integrand_evaluations", r1.evals as f64);
+        let mass = r1.m[0];
+        let e = (mass - 1.0).abs();
+        if e <= MOMENT_TOL {
+            rep.note_max(&format!("worst_ratio.mass:{}", law), e / MOMENT_TOL);
+        }
+        rep.check("C02.mass", &regime, e <= MOMENT_TOL, || json!({"setting": params, "integral of pdf": jnum(mass), "expected": 1.0, "tolerance": MOMENT_TOL, "range": [bps[0], bps[bps.len() - 1]], "converged": r1.converged}));
+        let mu = raw_mean(&r1);
+        if m.mean.is_finite() {
+            if let Some(tm) = m.tmean {
+                let bound = MOMENT_TOL * tm.abs().max(sd);
+                let e = (mu - m.mean).abs();
+                if e <= bound {
+                    rep.note_max(&format!("worst_ratio.mean:{}", law), e / bound);
+                }
+                rep.check("C02.mean.moment", &regime, e <= bound, || json!({"setting": params, "mean()": m.mean, "first moment of pdf": jnum(mu), "abs_tolerance": bound}));
+            } else {
+                rep.note_add("skipped.mean_not_reachable_by_truncated_integral", 1.0);
+            }
+        }
+        if m.var.is_finite() {
+            if let Some(tv) = m.tvar {
+                let v = central(&r1, mu);
+                let bound = MOMENT_TOL * tv;
+                let e = (v - m.var).abs();
+                if e <= bound {
+                    rep.note_max(&format!("worst_ratio.var:{}", law), e / bound);
+                }
+                rep.check("C02.var.moment", &regime, e <= bound, || json!({"setting": params, "var()": m.var, "second central moment of pdf": jnum(v), "abs_tolerance": bound}));
+            } else {
+                rep.note_add("skipped.var_not_reachable_by_truncated_integral", 1.0);
+            }
+        }
+    }
+
+    fn cont_grid() -> Vec<CSpec> {
+        let mut v = Vec::new();
+        let shapes = [0.3, 0.5, 1.0, 2.5, 10.0, 60.0, 120.0];
+        let rates = [1e-3, 0.1, 1.0, 7.0, 1e3];
+        for &mu in &[0.0, -3.5, 1e3, -1e3] {
+            for &sg in &[1e-3, 0.1, 1.0, 7.0, 1e3] {
+                v.push(CSpec { law: CLaw::Normal, a: mu, b: sg });
+            }
+        }
+        for &a in &shapes {
+            for &b in &rates {
+                v.push(CSpec { law: CLaw::Gamma, a, b });
+            }
+        }
+        for &(a, b) in &[(150.0, 7.0), (160.0, 7.0), (143.0, 1.0)] {
+            v.push(CSpec { law: CLaw::Gamma, a, b });
+        }
+        for &a in &shapes {
+            for &b in &shapes {
+                v.push(CSpec { law: CLaw::Beta, a, b });
+            }
+        }
+        for &(a, b) in &[(75.0, 75.0), (120.0, 30.0), (2.5, 141.0)] {
+            v.push(CSpec { law: CLaw::Beta, a, b });
+        }
+        for k in [1.0, 2.0, 3.0, 4.0, 5.0, 7.0, 10.0, 25.0, 60.0, 101.0, 150.0, 199.0, 200.0] {
+            v.push(CSpec { law: CLaw::Chi2, a: k, b: 0.0 });
+        }
+        for nu in [0.5, 1.0, 1.5, 2.0, 2.5, 3.0, 4.0, 5.0, 10.0, 30.0, 100.0, 200.0] {
+            v.push(CSpec { law: CLaw::T, a: nu, b: 0.0 });
+        }
+        for &al in &[0.3, 0.5, 1.0, 1.5, 2.5, 3.0, 10.0, 60.0] {
+            for &xm in &[1e-3, 1.0, 7.0, 1e3] {
+                v.push(CSpec { law: CLaw::Pareto, a: al, b: xm });
+            }
+        }
+        for &mu in &[0.0, 2.5, 1e3, -1e3] {
+            for &be in &[1e-3, 0.1, 1.0, 7.0, 1e3] {
+                v.push(CSpec { law: CLaw::Gumbel, a: mu, b: be });
+            }
+        }
+        for &l in &[1e-3, 0.1, 0.5, 1.0, 7.0, 1e3] {
+            v.push(CSpec { law: CLaw::Exponential, a: l, b: 0.0 });
+        }
+        for &(a, b) in &[(0.0, 1.0), (-2.0, 6.0), (1e3, 1e3 + 1e-3), (-1e3, 1e3), (-1e3, -999.0), (0.0, 1e-3), (5.0, 1e3)] {
+            v.push(CSpec { law: CLaw::Uniform, a, b });
+        }
+        v
+    }
+
+    /// random settings inside the regimes of the quantifier (thorough tier)
+    fn cont_random(rng: &mut Rng) -> CSpec {
+        let loc = |rng: &mut Rng| if rng.chance(0.3) { rng.range(-1e3, 1e3) } else { rng.range(-10.0, 10.0) };
+        match rng.usize(0, 8) {
+            0 => CSpec { law: CLaw::Normal, a: loc(rng), b: rng.log_range(1e-3, 1e3) },
+            1 => {
+                let a = if rng.chance(0.1) { 1.0 } else { rng.log_range(0.2, 170.0) };
+                // keep beta^alpha representable
+                let bmax = (600.0 / a).exp().min(1e3);
+                CSpec { law: CLaw::Gamma, a, b: rng.log_range((1.0 / bmax).max(1e-3), bmax) }
+            }
+            2 => {
+                let s = |rng: &mut Rng| if rng.chance(0.1) { 1.0 } else { rng.log_range(0.2, 120.0) };
+                CSpec { law: CLaw::Beta, a: s(rng), b: s(rng) }
+            }
+            3 => CSpec { law: CLaw::Chi2, a: rng.int(1, 200) as f64, b: 0.0 },
+            4 => CSpec { law: CLaw::T, a: if rng.bool() { rng.int(1, 200) as f64 } else { rng.log_range(0.5, 200.0) }, b: 0.0 },
+            5 => CSpec { law: CLaw::Pareto, a: rng.log_range(0.3, 60.0), b: rng.log_range(1e-3, 1e3) },
+            6 => CSpec { law: CLaw::Gumbel, a: loc(rng), b: rng.log_range(1e-3, 1e3) },
+            7 => CSpec { law: CLaw::Exponential, a: rng.log_range(1e-3, 1e3), b: 0.0 },
+            _ => {
+                let a = loc(rng);
+                CSpec { law: CLaw::Uniform, a, b: a + rng.log_range(1e-3, 1e3) }
+            }
+        }
+    }
+
+    // -----------------------------------------------------------------------------------------
+    // discrete laws
+
+    #[derive(Clone, Copy, Debug, PartialEq)]
+    enum DLaw {
+        Poisson,
+        Binomial,
+        Bernoulli,
+        DiscreteUniform,
+    }
+
+    #[derive(Clone, Copy, Debug)]
+    struct DSpec {
+        law: DLaw,
+        a: f64,
+        b: f64,
+    }
+
+    impl DSpec {
+        fn name(&self) -> &'static str {
+            match self.law {
+                DLaw::Poisson => "poisson",
+                DLaw::Binomial => "binomial",
+                DLaw::Bernoulli => "bernoulli",
+                DLaw::DiscreteUniform => "discreteuniform",
+            }
+        }
+        fn regime(&self) -> String {
+            match self.law {
+                // beyond lambda = 60 the textbook factors lambda^k, k! leave the f64 range inside
+                // the bulk of the distribution (100^155 = inf at a point of mass 2e-7)
+                DLaw::Poisson => if self.a <= 60.0 { "poisson:lambda<=60".into() } else { "poisson:lambda>60".into() },
+                // C(n, n/2) fits u64 up to n = 67
+                DLaw::Binomial => if self.a <= 67.0 { "binomial:n<=67".into() } else { "binomial:n>67".into() },
+                DLaw::Bernoulli => "bernoulli".into(),
+                DLaw::DiscreteUniform => {
+                    if ((self.a + self.b) as i64) % 2 == 0 {
+                        "discreteuniform:even-sum".into()
+                    } else {
+                        "discreteuniform:odd-sum".into()
+                    }
+                }
+            }
+        }
+    }
+
+    struct DModel {
+        pmf: Box<dyn Fn(i64) -> f64>,
+        mean: f64,
+        var: f64,
+        /// summation range (the whole support, or 0..kmax with reference tail < 1e-20)
+        lo: i64,
+        hi: i64,
+        /// true if the support ends at `hi` (counts above it are outside)
+        bounded_above: bool,
+        /// reference pmf on lo..=hi
+        reference: Vec<f64>,
+        tmean: f64,
+        tvar: f64,
+    }
+
+    /// weights by the ratio recurrence outwards from the mode, normalised in double-double
+    fn normalised(lo: i64, hi: i64, mode: i64, ratio_up: &dyn Fn(i64) -> Dd) -> Vec<f64> {
+        let n = (hi - lo + 1) as usize;
+        let mut w = vec![Dd::ZERO; n];
+        let mi = (mode - lo) as usize;
+        w[mi] = Dd::ONE;
+        for k in mode..hi {
+            // w[k+1] = w[k] * r(k)
+            let i = (k - lo) as usize;
+            w[i + 1] = if w[i].hi > 1e-290 { w[i] * ratio_up(k) } else { Dd::new(w[i].hi * ratio_up(k).hi) };
+        }
+        for k in (lo..mode).rev() {
+            let i = (k - lo) as usize;
+            w[i] = if w[i + 1].hi > 1e-290 { w[i + 1] / ratio_up(k) } else { Dd::new(w[i + 1].hi / ratio_up(k).hi) };
+        }
+        let mut s = Dd::ZERO;
+        for x in &w {
+            s = s + *x;
+        }
+        w.iter().map(|x| (*x / s).f()).collect()
+    }
+
+    fn dmodel(sp_: &DSpec) -> Result<DModel, String> {
+        let (a, b) = (sp_.a, sp_.b);
+        macro_rules! lib {
+            ($d:expr) => {{
+                let d = guard(|| $d)?;
+                let m = guard(|| d.mean())?;
+                let v = guard(|| d.var())?;
+                (Box::new(move |k: i64| d.pmf(k)) as Box<dyn Fn(i64) -> f64>, m, v)
+            }};
+        }
+        Ok(match sp_.law {
+            DLaw::Poisson => {
+                let (pmf, mean, var) = lib!(Poisson::new(a));
+                let hi = (a + 40.0 * a.sqrt() + 60.0).ceil() as i64;
+                let la = Dd::new(a);
+                let reference = normalised(0, hi, a.floor() as i64, &|k| la / Dd::new(k as f64 + 1.0));
+                DModel { pmf, mean, var, lo: 0, hi, bounded_above: false, reference, tmean: a, tvar: a }
+            }
+            DLaw::Binomial => {
+                let n = a as i64;
+                let p = b;
+                let (pmf, mean, var) = lib!(Binomial::new(n as u64, p));
+                let reference = if p <= 0.0 {
+                    (0..=n).map(|k| if k == 0 { 1.0 } else { 0.0 }).collect()
+                } else if p >= 1.0 {
+                    (0..=n).map(|k| if k == n { 1.0 } else { 0.0 }).collect()
+                } else {
+                    let odds = Dd::new(p) / (Dd::ONE - Dd::new(p));
+                    let mode = (((n + 1) as f64) * p).floor().min(n as f64) as i64;
+                    normalised(0, n, mode, &|k| Dd::new((n - k) as f64) / Dd::new(k as f64 + 1.0) * odds)
+                };
+                DModel { pmf, mean, var, lo: 0, hi: n, bounded_above: true, reference, tmean: n as f64 * p, tvar: n as f64 * p * (1.0 - p) }
+            }
+            DLaw::Bernoulli => {
+                let (pmf, mean, var) = lib!(Bernoulli::new(a));
+                DModel { pmf, mean, var, lo: 0, hi: 1, bounded_above: true, reference: vec![1.0 - a, a], tmean: a, tvar: a * (1.0 - a) }
+            }
+            DLaw::DiscreteUniform => {
+                let (lo, hi) = (a as i64, b as i64);
+                let (pmf, mean, var) = lib!(DiscreteUniform::new(lo, hi));
+                let n = (hi - lo + 1) as f64;
+                DModel { pmf, mean, var, lo, hi, bounded_above: true, reference: vec![1.0 / n; n as usize], tmean: 0.5 * (a + b), tvar: (n * n - 1.0) / 12.0 }
+            }
+        })
+    }
+
+    fn run_disc(spec: &DSpec, rep: &mut Report) {
+        let regime = spec.regime();
+        let law = spec.name();
+        let params = json!({"law": law, "params": [spec.a, spec.b]});
+        let m = match dmodel(spec) {
+            Ok(m) => m,
+            Err(msg) => {
+                rep.case(&regime);
+                rep.check("C02.construct.no_panic", &regime, false, || json!({"setting": params, "panic": msg}));
+                return;
+            }
+        };
+        rep.distinct(Hasher::new().s(law).f(spec.a).f(spec.b).finish(), true);
+        rep.sample(|| json!({"setting": params, "regime": regime, "mean()": jnum(m.mean), "var()": jnum(m.var)}));
+        // cross-check of the recurrence reference with the lgamma closed form (oracle vs oracle)
+        for (i, &w) in m.reference.iter().enumerate() {
+            let k = (m.lo + i as i64) as f64;
+            let alt = match spec.law {
+                DLaw::Poisson => sp::poisson_ln_pmf(k, spec.a).exp(),
+                DLaw::Binomial => sp::binom_ln_pmf(k, spec.a, spec.b).exp(),
+                _ => w,
+            };
+            if w > 1e-250 && (alt / w - 1.0).abs() > 1e-9 {
+                rep.inconclusive(format!("pmf references disagree for {} {:?} at k={}: {:e} vs {:e}", law, [spec.a, spec.b], k, w, alt));
+                return;
+            }
+        }
+        // (a) every point of the summation range
+        let mut formula_failures = 0u32;
+        let (mut s0, mut s1) = (Dd::ZERO, Dd::ZERO);
+        let mut vals: Vec<f64> = Vec::with_capacity(m.reference.len());
+        for (i, &want) in m.reference.iter().enumerate() {
+            let k = m.lo + i as i64;
+            rep.case(&regime);
+            let got = match guard(|| (m.pmf)(k)) {
+                Ok(v) => v,
+                Err(msg) => {
+                    formula_failures += 1;
+                    vals.push(f64::NAN);
+                    rep.check("C02.pmf.no_panic", &regime, false, || json!({"setting": params, "k": k, "panic": msg, "expected": want}));
+                    continue;
+                }
+            };
+            vals.push(got);
+            rep.check("C02.pmf.nonneg", &regime, !(got < 0.0), || json!({"setting": params, "k": k, "observed": jnum(got), "expected": want}));
+            // conditioning: a log-space evaluation carries eps·(sum of |log terms|) whatever the code
+            let kf = k as f64;
+            let terms = match spec.law {
+                DLaw::Poisson => kf * spec.a.ln().abs() + spec.a + sp::lgamma(kf + 1.0).abs(),
+                DLaw::Binomial if spec.b > 0.0 && spec.b < 1.0 => sp::lgamma(spec.a + 1.0) + sp::lgamma(kf + 1.0) + sp::lgamma(spec.a - kf + 1.0) + kf * spec.b.ln().abs() + (spec.a - kf) * sp::log1p(-spec.b).abs(),
+                _ => 0.0,
+            };
+            let tol = FORMULA_TOL + 16.0 * f64::EPSILON * terms;
+            let (ok, ratio) = close_rel(got, want, tol);
+            if ok {
+                rep.note_max(&format!("worst_ratio.pmf.formula:{}", regime), ratio);
+            } else {
+                formula_failures += 1;
+            }
+            rep.check("C02.pmf.formula", &regime, ok, || json!({"setting": params, "k": k, "observed": jnum(got), "expected": want, "rel_tol": tol}));
+            s0 = s0 + Dd::new(got);
+            s1 = s1 + Dd::new(got) * (k as f64 - m.tmean);
+        }
+        // far tail of an unbounded support: the true value is below 1e-300
+        if !m.bounded_above {
+            for k in [m.hi + 1000, 1i64 << 40] {
+                rep.case(&regime);
+                let r = guard(|| (m.pmf)(k));
+                let ok = matches!(r, Ok(v) if v >= 0.0 && v <= 1e-300);
+                rep.check("C02.pmf.formula", &regime, ok, || json!({"setting": params, "k": k, "observed": match &r { Ok(v) => jnum(*v), Err(e) => json!({"panic": e}) }, "expected": "0 (true value < 1e-300)"}));
+            }
+        }
+        // (d) strictly outside the support: exactly 0, no panic
+        let mut outside: Vec<(i64, String)> = Vec::new();
+        let below = if spec.law == DLaw::Binomial { "binomial:k<0".to_string() } else { regime.clone() };
+        let above = if spec.law == DLaw::Binomial { "binomial:k>n".to_string() } else { regime.clone() };
+        for d in [1i64, 2, 1000, 1 << 40] {
+            outside.push((m.lo - d, below.clone()));
+            if m.bounded_above {
+                outside.push((m.hi + d, above.clone()));
+            }
+        }
+        for (k, reg) in outside {
+            rep.case(&reg);
+            let r = guard(|| (m.pmf)(k));
+            let ok = matches!(r, Ok(v) if v == 0.0);
+            rep.check("C02.outside.zero", &reg, ok, || json!({"setting": params, "k": k, "support": [m.lo, if m.bounded_above { json!(m.hi) } else { json!("inf") }], "observed": match &r { Ok(v) => jnum(*v), Err(e) => json!({"panic": e}) }, "expected": 0.0}));
+        }
+        // (b) mass and moments of the library's own pmf
+        if formula_failures > 0 {
+            rep.note_add("skipped.moment_sums_pmf_formula_failed", 1.0);
+            return;
+        }
+        rep.case(&regime);
+        let sd = m.tvar.sqrt();
+        let mass = s0.f();
+        let e = (mass - 1.0).abs();
+        if e <= MOMENT_TOL {
+            rep.note_max(&format!("worst_ratio.mass:{}", law), e / MOMENT_TOL);
+        }
+        rep.check("C02.mass", &regime, e <= MOMENT_TOL, || json!({"setting": params, "sum of pmf": jnum(mass), "expected": 1.0, "tolerance": MOMENT_TOL, "range": [m.lo, m.hi]}));
+        let mu = m.tmean * mass + s1.f();
+        if m.mean.is_finite() {
+            let bound = MOMENT_TOL * m.tmean.abs().max(sd) + 1e-300;
+            let e = (mu - m.mean).abs();
+            if e <= bound {
+                rep.note_max(&format!("worst_ratio.mean:{}", law), e / bound);
+            }
+            rep.check("C02.mean.moment", &regime, e <= bound, || json!({"setting": params, "mean()": m.mean, "first moment of pmf": jnum(mu), "abs_tolerance": bound}));
+        }
+        if m.var.is_finite() {
+            let mut s2 = Dd::ZERO;
+            for (i, &v) in vals.iter().enumerate() {
+                let d = (m.lo + i as i64) as f64 - mu;
+                s2 = s2 + Dd::new(v) * Dd::prod(d, d);
+            }
+            let v = s2.f();
+            let bound = MOMENT_TOL * m.tvar + 1e-300;
+            let e = (v - m.var).abs();
+            if e <= bound {
+                rep.note_max(&format!("worst_ratio.var:{}", law), e / bound);
+            }
+            rep.check("C02.var.moment", &regime, e <= bound, || json!({"setting": params, "var()": m.var, "second central moment of pmf": jnum(v), "abs_tolerance": bound}));
+        }
+    }
+
+    fn disc_grid() -> Vec<DSpec> {
+        let mut v = Vec::new();
+        for l in [1e-3, 0.1, 1.0, 7.0, 30.0, 60.0, 100.0, 300.0, 1e3] {
+            v.push(DSpec { law: DLaw::Poisson, a: l, b: 0.0 });
+        }
+        for n in [1.0, 2.0, 10.0, 67.0, 68.0, 200.0, 1000.0] {
+            for p in [0.0, 1e-3, 0.3, 0.5, 0.97, 1.0] {
+                v.push(DSpec { law: DLaw::Binomial, a: n, b: p });
+            }
+        }
+        for p in [0.0, 1e-3, 0.3, 0.5, 0.75, 0.97, 1.0] {
+            v.push(DSpec { law: DLaw::Bernoulli, a: p, b: 0.0 });
+        }
+        for (lo, hi) in [(0.0, 1.0), (-2.0, 6.0), (1.0, 6.0), (0.0, 9.0), (-2.0, 5.0), (-1000.0, 1000.0), (-1000.0, -999.0), (999.0, 1000.0), (-1000.0, -995.0), (3.0, 3.0), (-7.0, -7.0), (0.0, 1000.0)] {
+            v.push(DSpec { law: DLaw::DiscreteUniform, a: lo, b: hi });
+        }
+        v
+    }
+
+    fn disc_random(rng: &mut Rng) -> DSpec {
+        match rng.usize(0, 3) {
+            0 => DSpec { law: DLaw::Poisson, a: rng.log_range(1e-3, 1e3), b: 0.0 },
+            1 => {
+                let n = if rng.bool() { rng.int(1, 67) } else { rng.int(68, 1000) } as f64;
+                let p = match rng.usize(0, 3) {
+                    0 => rng.log_range(1e-3, 0.5),
+                    1 => 1.0 - rng.log_range(1e-3, 0.5),
+                    _ => rng.f64(),
+                };
+                DSpec { law: DLaw::Binomial, a: n, b: p }
+            }
+            2 => DSpec { law: DLaw::Bernoulli, a: rng.f64(), b: 0.0 },
+            _ => {
+                let lo = rng.int(-1000, 1000);
+                let hi = if rng.bool() { (lo + rng.int(0, 12)).min(1000) } else { rng.int(lo, 1000) };
+                DSpec { law: DLaw::DiscreteUniform, a: lo as f64, b: hi as f64 }
+            }
+        }
+    }
+
+    // -----------------------------------------------------------------------------------------
+    // Normal::cdf = integral of Normal::pdf (and = erfc form)
+
+    fn run_normal_cdf(mu: f64, sigma: f64, rep: &mut Report) {
+        let regime = "normal";
+        let params = json!({"law": "normal", "params": [mu, sigma]});
+        let d = match guard(|| Normal::new(mu, sigma)) {
+            Ok(d) => d,
+            Err(_) => return,
+        };
+        rep.distinct(Hasher::new().s("normal_cdf").f(mu).f(sigma).finish(), true);
+        let mut xs: Vec<f64> = LADDER.iter().map(|&p| quantile(&|x| sp::norm_cdf(x, mu, sigma), p, f64::NEG_INFINITY, f64::INFINITY, mu, sigma)).collect();
+        for k in [0.0, 1e-3, 0.5, 3.0, 5.0, 8.0, 12.0, 38.0, 1e3] {
+            xs.push(mu + k * sigma);
+            xs.push(mu - k * sigma);
+        }
+        xs.sort_by(|p, q| p.partial_cmp(q).unwrap());
+        xs.dedup();
+        // running quadrature of the library's pdf from mu − 40 sigma upwards
+        let lower = mu - 40.0 * sigma;
+        let mut acc = 0.0f64;
+        let mut at = lower;
+        for &x in &xs {
+            rep.case(regime);
+            let got = match guard(|| d.cdf(x)) {
+                Ok(v) => v,
+                Err(msg) => {
+                    rep.check("C02.normal_cdf.no_panic", regime, false, || json!({"setting": params, "x": x, "panic": msg}));
+                    continue;
+                }
+            };
+            let want = sp::norm_cdf(x, mu, sigma);
+            let e = (got - want).abs();
+            if e <= CDF_TOL {
+                rep.note_max("worst_ratio.normal_cdf.erfc", e / CDF_TOL);
+            }
+            rep.check("C02.normal_cdf.erfc", regime, e <= CDF_TOL, || json!({"setting": params, "x": x, "cdf": jnum(got), "expected": want, "abs_tol": CDF_TOL}));
+            let upto = x.min(mu + 40.0 * sigma);
+            if upto > at {
+                let mut bps = vec![at];
+                let mut t = ((at - mu) / sigma).floor() + 1.0;
+                while mu + t * sigma < upto {
+                    if mu + t * sigma > at {
+                        bps.push(mu + t * sigma);
+                    }
+                    t += 1.0;
+                }
+                bps.push(upto);
+                let mut f = |t: f64| d.pdf(t);
+                match guard(|| integrate(&mut f, &bps, mu, sigma, 1e-13, 1)) {
+                    Ok(r) => acc += r.m[0],
+                    Err(msg) => {
+                        rep.check("C02.pdf.no_panic", regime, false, || json!({"setting": params, "while": "integrating the pdf", "panic": msg}));
+                        return;
+                    }
+                }
+                at = upto;
+            }
+            let q = if x < lower { 0.0 } else { acc };
+            let e = (got - q).abs();
+            if e <= CDF_TOL {
+                rep.note_max("worst_ratio.normal_cdf.quadrature", e / CDF_TOL);
+            }
+            rep.check("C02.normal_cdf.quadrature", regime, e <= CDF_TOL, || json!({"setting": params, "x": x, "cdf": jnum(got), "integral of pdf from mu-40sigma": jnum(q), "abs_tol": CDF_TOL}));
+        }
+    }
+
+    // -----------------------------------------------------------------------------------------
+    // multivariate normal
+
+    /// Row permutation chosen by partial-pivoting LU (column-wise Crout order) of `a`; only used to
+    /// *label* the case: `Matrix::det` takes its sign from the parity of this permutation, and a
+    /// pivot permutation with a cycle of length >= 4 is a class of its own (see C11, `ipiv_parity`).
+    fn lu_pivot_longest_cycle(a: &[f64], n: usize) -> usize {
+        let mut lu = a.to_vec();
+        let mut piv: Vec<usize> = (0..n).collect();
+        for j in 0..n {
+            for i in 0..n {
+                let mut s = 0.0;
+                for k in 0..i.min(j) {
+                    s += lu[i * n + k] * lu[k * n + j];
+                }
+                lu[i * n + j] -= s;
+            }
+            let mut p = j;
+            for i in (j + 1)..n {
+                if lu[i * n + j].abs() > lu[p * n + j].abs() {
+                    p = i;
+                }
+            }
+            if p != j {
+                for k in 0..n {
+                    lu.swap(p * n + k, j * n + k);
+                }
+                piv.swap(p, j);
+            }
+            if lu[j * n + j] != 0.0 {
+                for i in (j + 1)..n {
+                    lu[i * n + j] /= lu[j * n + j];
+                }
+            }
+        }
+        let mut seen = vec![false; n];
+        let mut longest = 0;
+        for s in 0..n {
+            let (mut k, mut len) = (s, 0);
+            while !seen[k] {
+                seen[k] = true;
+                k = piv[k];
+                len += 1;
+            }
+            longest = longest.max(len);
+        }
+        longest
+    }
+
+    fn run_mvn(rng: &mut Rng, d: usize, rep: &mut Report) {
+        // random SPD covariance: G'G·scale + delta·I, mirrored so that it is symmetric to the bit
+        let g: Vec<f64> = rng.normals(d * d);
+        let scale = rng.log_range(1e-2, 1e2);
+        let delta = scale * rng.log_range(1e-2, 1.0);
+        let mut cov = vec![0.0; d * d];
+        for i in 0..d {
+            for j in 0..=i {
+                let mut s = 0.0;
+                for k in 0..d {
+                    s += g[k * d + i] * g[k * d + j];
+                }
+                let v = s * scale + if i == j { delta } else { 0.0 };
+                cov[i * d + j] = v;
+                cov[j * d + i] = v;
+            }
+        }
+        let regime = if lu_pivot_longest_cycle(&cov, d) >= 4 { "mvn:lu-pivot-cycle>=4".to_string() } else { format!("mvn:d={}", d) };
+        let big_loc = rng.chance(0.3);
+        let mean: Vec<f64> = (0..d).map(|_| if big_loc { rng.range(-1e3, 1e3) } else { rng.range(-10.0, 10.0) }).collect();
+        let setting = json!({"dim": d, "mean": jf(&mean), "cov": jf(&cov)});
+        let l = match linref::cholesky(&cov, d) {
+            Some(l) => l,
+            None => {
+                rep.inconclusive("generated covariance not SPD for the reference Cholesky".into());
+                return;
+            }
+        };
+        let kappa = linref::cond_inf(&cov, d);
+        let logdet: f64 = 2.0 * (0..d).map(|i| l[i * d + i].ln()).sum::<f64>();
+        rep.distinct(Hasher::new().s("mvn").fs(&cov).fs(&mean).finish(), true);
+        let mvn = match guard(|| MVN::new(mean.clone(), Matrix::new(cov.clone(), d as i32, d as i32))) {
+            Ok(m) => m,
+            Err(msg) => {
+                rep.case(&regime);
+                rep.check("C02.construct.no_panic", &regime, false, || json!({"setting": setting, "panic": msg}));
+                return;
+            }
+        };
+        rep.sample(|| json!({"setting": setting, "regime": regime, "cond_inf": kappa}));
+        // mean()/var() are the parameters themselves
+        {
+            let mr = &mvn;
+            let m: &[f64] = mr.mean();
+            let v: &Matrix = mr.var();
+            let ok = m == &mean[..] && v.data.v == cov && v.nrows == d && v.ncols == d;
+            rep.case(&regime);
+            rep.check("C02.mvn.moments", &regime, ok, || json!({"setting": setting, "mean()": jf(m), "var()": jf(&v.data.v)}));
+        }
+        for t in [0.0, 0.3, 1.0, 1.0, 2.0, 3.0, 6.0, 12.0, 45.0] {
+            // x = mean + t · L z
+            let z = rng.normals(d);
+            let mut x = mean.clone();
+            for i in 0..d {
+                for j in 0..=i {
+                    x[i] += t * l[i * d + j] * z[j];
+                }
+            }
+            // reference: forward substitution L y = x − mean in double-double, q = |y|²
+            let mut y = vec![Dd::ZERO; d];
+            for i in 0..d {
+                let mut s = Dd::sum2(x[i], -mean[i]);
+                for j in 0..i {
+                    s = s - y[j] * l[i * d + j];
+                }
+                y[i] = s / l[i * d + i];
+            }
+            let mut q = Dd::ZERO;
+            for yi in &y {
+                q = q + *yi * *yi;
+            }
+            let q = q.f();
+            let ln_ref = -0.5 * (q + logdet + d as f64 * LN_2PI);
+            let want = ln_ref.exp();
+            // a-priori: the cached inverse and determinant carry errors of order d·eps·kappa
+            let ln_bound = 1e-11 + 64.0 * d as f64 * f64::EPSILON * kappa * (1.0 + q);
+            let tol = ln_bound.exp_m1();
+            rep.case(&regime);
+            let mr = &mvn;
+            let got = match guard(|| mr.pdf(&x[..])) {
+                Ok(v) => v,
+                Err(msg) => {
+                    rep.check("C02.pdf.no_panic", &regime, false, || json!({"setting": setting, "x": jf(&x), "panic": msg}));
+                    continue;
+                }
+            };
+            rep.check("C02.pdf.nonneg", &regime, !(got < 0.0), || json!({"setting": setting, "x": jf(&x), "observed": jnum(got)}));
+            let (ok, ratio) = close_rel(got, want, tol);
+            if ok {
+                rep.note_max("worst_ratio.pdf.formula:mvn", ratio);
+            }
+            rep.check("C02.pdf.formula", &regime, ok, || json!({"setting": setting, "x": jf(&x), "observed": jnum(got), "expected": want, "rel_tol": tol, "cond_inf": kappa, "mahalanobis_sq": q}));
+            if got.is_finite() && got >= 1e-300 {
+                match guard(|| mr.ln_pdf(&x[..])) {
+                    Ok(lp) => {
+                        let lw = got.ln();
+                        let err = (lp - lw).abs();
+                        let bound = FORMULA_TOL * lw.abs().max(1.0);
+                        if err <= bound {
+                            rep.note_max("worst_ratio.ln_pdf", err / bound);
+                        }
+                        rep.check("C02.ln_pdf", &regime, err <= bound, || json!({"setting": setting, "x": jf(&x), "ln_pdf": jnum(lp), "ln(pdf)": lw}));
+                    }
+                    Err(msg) => {
+                        rep.check("C02.ln_pdf", &regime, false, || json!({"setting": setting, "x": jf(&x), "panic": msg}));
+                    }
+                }
+            }
+        }
+    }
+
+    // -----------------------------------------------------------------------------------------
+
+    pub fn run(cfg: &Cfg, rep: &mut Report) {
+        rep.rule = "settings = fixed grid over every law x parameter regime of the quantifier (+ random settings inside the same regimes in the thorough tier); per setting: 41-point quantile ladder, centre, ±50/1e3/1e6 scale units, support ends ±1 ulp, points strictly outside; discrete laws: every count of the support (Poisson: 0..lambda+40 sqrt(lambda)+60) plus negative and too-large counts; MVN: random SPD covariance, dimension 1..6, points at 0..45 Mahalanobis radii. evaluations = point evaluations + one per moment check; distinct = distinct (law, parameters); all are non-trivial".into();
+        rep.assume("pointwise formula checks are restricted to points where every partial product of the textbook factors is a representable f64 (DESIGN: 'combinations whose textbook factors are individually representable'); skipped points are counted in notes.skipped.*");
+        rep.assume("mass/mean/var are integrated only when the pointwise formula check passed for the setting (a wrong pdf is already reported), when the moment is finite with tail exponent margin >= 1/2 (T dof >= 1.5/2.5, Pareto alpha >= 1.5/2.5) and the density is not singular at a non-zero support end (Beta with b < 1)");
+        rep.assume("Normal sigma = 0, equal-bounds Uniform and NaN/inf parameters or arguments are outside the quantifier");
+        rep.assume("tolerances: formula (1e-11 + 16 eps sum|log factors|) rel + 1e-300 abs; moments 1e-8 (mean relative to max(|mean|, sd)); Normal::cdf 2e-7 abs; MVN exp(1e-11 + 64 d eps cond_inf (1+q)) - 1 rel");
+        if let Err(e) = gk_selftest() {
+            rep.inconclusive(format!("oracle self-test failed: {}", e));
+            return;
+        }
+        let lite = cfg.lite;
+        let mut cgrid = cont_grid();
+        let mut dgrid = disc_grid();
+        if lite {
+            cgrid = cgrid.into_iter().step_by(7).collect();
+            dgrid = dgrid.into_iter().step_by(5).collect();
+        }
+        par_cases(cfg, rep, 1, cgrid.len(), |i, _rng, rep| run_cont(&cgrid[i], rep));
+        par_cases(cfg, rep, 2, dgrid.len(), |i, _rng, rep| run_disc(&dgrid[i], rep));
+        let normals: Vec<(f64, f64)> = cgrid.iter().filter(|s| s.law == CLaw::Normal).map(|s| (s.a, s.b)).collect();
+        par_cases(cfg, rep, 3, normals.len(), |i, _rng, rep| run_normal_cdf(normals[i].0, normals[i].1, rep));
+        let nm = cfg.pick(600, 6000, 2);
+        par_cases(cfg, rep, 4, nm, |i, rng, rep| run_mvn(rng, 1 + i % 6, rep));
+        if cfg.thorough() && !lite {
+            par_cases(cfg, rep, 5, 6000, |_i, rng, rep| {
+                let s = cont_random(rng);
+                run_cont(&s, rep);
+                if s.law == CLaw::Normal {
+                    run_normal_cdf(s.a, s.b, rep);
+                }
+            });
+            par_cases(cfg, rep, 6, 3000, |_i, rng, rep| {
+                let s = disc_random(rng);
+                run_disc(&s, rep);
+            });
+        }
+        if !lite {
+            for r in [
+                "normal", "gamma:shape<1", "gamma:shape=1", "gamma:shape>1", "beta:shape<1", "beta:shape=1", "beta:shape>1", "chi2:dof=1", "chi2:dof=2", "chi2:dof>2", "t", "pareto", "gumbel", "exponential", "uniform",
+                "poisson:lambda<=60", "poisson:lambda>60", "binomial:n<=67", "binomial:n>67", "binomial:k<0", "binomial:k>n", "bernoulli", "discreteuniform:even-sum", "discreteuniform:odd-sum",
+                "mvn:d=1", "mvn:d=2", "mvn:d=3", "mvn:d=4", "mvn:d=5", "mvn:d=6",
+            ] {
+                rep.require(r, 1);
+            }
+        }
+    }
+} // mod native
